@@ -17,20 +17,43 @@
 import RotoV.Model.Strings
 import RotoV.Model.BuiltinSpec
 import RotoV.Lemmas.Strings
+import RotoV.Lemmas.StringsGen
 
 namespace RotoV.C17
 open RotoV RotoV.Strings RotoV.BuiltinSpec
 
+/- `usize` is 64 bits wide (the generated view definitions take `USz` arguments) -/
+attribute [local instance] StringsGen.t64
+
 /-! ## The generated binding table -/
+
+/-- The six view built-ins whose closure in basic.rs AND body in string.rs are
+covered end to end by theorems over generated DEFINITIONS (`view_builtins_spec`,
+`lines_builtins_are_model` below): the text of their local conversions (`args`,
+`pre`) and of their body (`std`) needs no textual tie — renaming a closure local
+changes nothing; everything else about these rows (script type, name, kind,
+parameter/return types, documentation sentence, called method) stays compared. -/
+def provedEndToEnd : List (String × String) :=
+  [("StringBytes", "get"), ("StringBytes", "slice"), ("StringChars", "get"), ("StringChars", "slice"),
+   ("StringLines", "get"), ("StringLines", "slice")]
+
+def blankProved (r : Row) : Row :=
+  if provedEndToEnd.contains (r.script, r.name) then { r with args := [], pre := [], std := "" } else r
 
 /-- Every built-in registered in basic.rs (95 on this tree) is bound, under its
 documented script type, name, kind, parameter/return types and documentation
 sentence, to the Rust std / inetnum operation that documentation names
 (`floor ↦ f64::floor`, `pow ↦ powf`, `contains ↦ str.contains(needle)`,
 `to_string ↦ ToString::to_string`, `max_addr ↦ Prefix::max_addr`, …), with the
-documented argument order and `u64 → usize` conversions. -/
+documented argument order and `u64 → usize` conversions (for the six rows of
+`provedEndToEnd` the conversions and the body are the generated definitions'). -/
 theorem bindings_identity :
-    Gen.Bindings.table.map Row.ofBinding = documented := by decide +kernel
+    (Gen.Bindings.table.map Row.ofBinding).map blankProved = documented.map blankProved := by
+  decide +kernel
+
+/-- the exemption touches exactly the six rows, all of which are registered -/
+example : (documented.filter fun r => blankProved r != r).map (fun r => (r.script, r.name)) = provedEndToEnd := by
+  decide +kernel
 
 /-- non-vacuity: the table is not empty and really contains, e.g., `f64.ceil ↦ f64::ceil`. -/
 example : (lookup "f64" "ceil").map (·.std) = some "f64::ceil" ∧ documented.length = 95 := by
@@ -43,13 +66,152 @@ theorem bindings_unique : (Gen.Bindings.table.map fun b => (b.script, b.name)).N
 example : ("String", "contains") ∈ Gen.Bindings.table.map fun b => (b.script, b.name) := by
   decide +kernel
 
-/-- The bodies of the view methods that are algorithms (`StringChars::slice`,
-`StringChars::list`, `StringLines::slice`, `RotoString::from_chars`) are,
+/-- The algorithmic view bodies whose documented meaning is proved over the
+definition the translator GENERATES from string.rs (`Generated/C17Views.lean`,
+theorems `gen_chars_slice_spec`, `gen_lines_slice_is_model` below): they need
+no textual tie, and a behaviour-preserving rewrite of them inside the
+translator's subset changes nothing here. -/
+def provedOverGenerated : List String := ["StringChars::slice", "StringLines::slice"]
+
+/-- The bodies of the REMAINING view methods that are algorithms
+(`StringChars::list`, `RotoString::from_chars`: a loop pushing every item) are,
 statement for statement, the ones `Model/Strings.lean` transcribes. -/
-theorem view_algorithms_as_transcribed : Gen.Bindings.algorithms = transcribed := by
+theorem view_algorithms_as_transcribed :
+    Gen.Bindings.algorithms.filter (fun a => !provedOverGenerated.contains a.1) =
+      transcribed.filter (fun a => !provedOverGenerated.contains a.1) := by
   decide +kernel
 
-example : (transcribed.map (·.1)).contains "StringLines::slice" = true := by decide +kernel
+example : ((transcribed.filter fun a => !provedOverGenerated.contains a.1).map (·.1)) =
+    ["RotoString::from_chars", "StringChars::list"] := by decide +kernel
+
+/-- every body that is exempt from the textual tie is an algorithm the binding table knows -/
+theorem provedOverGenerated_are_algorithms :
+    provedOverGenerated.all (fun n => (Gen.Bindings.algorithms.map (·.1)).contains n) = true := by
+  decide +kernel
+
+/-! ## The view bodies GENERATED from string.rs (`Generated/C17Views.lean`) -/
+
+/-- `StringChars::get` as generated from string.rs is the n-th character. -/
+theorem gen_chars_get_spec (dbg : Bool) (s : Str) (idx : USz) :
+    Gen.C17Views.StringChars_get dbg s idx = .ok (specCharsGet s.chars idx.toNat) :=
+  StringsGen.gen_chars_get dbg s idx
+
+example : Gen.C17Views.StringChars_get false ⟨['h', 'é', 'l']⟩ ⟨BitVec.ofNat 64 1⟩ = .ok (some 'é') := by
+  decide
+
+/-- `StringChars::slice` AS GENERATED from string.rs (the `checked_sub`s, the
+char-boundary iterator advanced with `nth`, `&s[byte_i..byte_j]` with its panic
+explicit): never panics and is `take (j - i) (drop i s)` on characters when
+`i ≤ j ≤ len`, `None` otherwise — for every string and all 64-bit `i`, `j`. -/
+theorem gen_chars_slice_spec (dbg : Bool) (s : Str) (i j : USz) :
+    Gen.C17Views.StringChars_slice dbg s i j =
+      .ok ((specCharsSlice s.chars i.toNat j.toNat).map Str.mk) :=
+  StringsGen.gen_chars_slice dbg s i j
+
+example :
+    Gen.C17Views.StringChars_slice false ⟨['h', 'é', 'l']⟩ ⟨BitVec.ofNat 64 1⟩ ⟨BitVec.ofNat 64 3⟩
+      = .ok (some ⟨['é', 'l']⟩) ∧
+    Gen.C17Views.StringChars_slice false ⟨['h', 'é', 'l']⟩ ⟨BitVec.ofNat 64 2⟩ ⟨BitVec.ofNat 64 4⟩
+      = .ok none ∧
+    Gen.C17Views.StringChars_slice false ⟨['h', 'é', 'l']⟩ ⟨BitVec.ofNat 64 3⟩ ⟨BitVec.ofNat 64 3⟩
+      = .ok (some ⟨[]⟩) := by decide
+
+/-- … hence the generated definition and the hand model the Lean driver runs agree everywhere. -/
+theorem gen_chars_slice_is_model (dbg : Bool) (s : Str) (i j : USz) :
+    Gen.C17Views.StringChars_slice dbg s i j =
+      (charsSlice s.chars i.toNat j.toNat).map' (Option.map Str.mk) := by
+  rw [gen_chars_slice_spec, Strings.charsSlice_eq_spec]; rfl
+
+example : (charsSlice ['h', 'é', 'l'] 1 3).map' (Option.map Str.mk) = .ok (some ⟨['é', 'l']⟩) := by decide
+
+/-- `StringBytes::get` AS GENERATED from string.rs (`get(idx..)` then the first
+character): the character that starts at byte offset `idx`; `None` inside a
+code point, at the end, out of range — for every string and 64-bit offset. -/
+theorem gen_bytes_get_spec (dbg : Bool) (s : Str) (idx : USz) :
+    Gen.C17Views.StringBytes_get dbg s idx = .ok (specBytesGet s.chars idx.toNat) :=
+  StringsGen.gen_bytes_get dbg s idx
+
+example :
+    Gen.C17Views.StringBytes_get false ⟨['h', 'é', 'l']⟩ ⟨BitVec.ofNat 64 1⟩ = .ok (some 'é') ∧
+    Gen.C17Views.StringBytes_get false ⟨['h', 'é', 'l']⟩ ⟨BitVec.ofNat 64 2⟩ = .ok none ∧
+    specBytesGet ['h', 'é', 'l'] 2 = none := by decide
+
+/-- `StringBytes::slice` AS GENERATED from string.rs (`get(i..j)`): the characters
+between two code-point boundaries `i ≤ j`; `None` off a boundary, out of range
+or for `i > j`; never panics — for every string and all 64-bit offsets. -/
+theorem gen_bytes_slice_spec (dbg : Bool) (s : Str) (i j : USz) :
+    Gen.C17Views.StringBytes_slice dbg s i j =
+      .ok ((specBytesSlice s.chars i.toNat j.toNat).map Str.mk) :=
+  StringsGen.gen_bytes_slice dbg s i j
+
+example :
+    Gen.C17Views.StringBytes_slice false ⟨['h', 'é', 'l']⟩ ⟨BitVec.ofNat 64 1⟩ ⟨BitVec.ofNat 64 3⟩
+      = .ok (some ⟨['é']⟩) ∧
+    Gen.C17Views.StringBytes_slice false ⟨['h', 'é', 'l']⟩ ⟨BitVec.ofNat 64 1⟩ ⟨BitVec.ofNat 64 2⟩
+      = .ok none := by decide
+
+/-- `StringLines::get` AS GENERATED from string.rs is the model `linesGet` — the
+body of `StringBytes::get` — so `lines_get_spec_refuted` is about the real body:
+the generated definition returns `'b'` for line 1 of `"ab\ncd\n"`. -/
+theorem gen_lines_get_is_model (dbg : Bool) (s : Str) (idx : USz) :
+    Gen.C17Views.StringLines_get dbg s idx = .ok (linesGet s.chars idx.toNat) ∧
+    Gen.C17Views.StringLines_get dbg s idx = Gen.C17Views.StringBytes_get dbg s idx :=
+  ⟨StringsGen.gen_lines_get dbg s idx, rfl⟩
+
+example : Gen.C17Views.StringLines_get false ⟨['a', 'b', '\n', 'c', 'd', '\n']⟩ ⟨BitVec.ofNat 64 1⟩
+    = .ok (some 'b') := by decide
+
+/-- `StringLines::slice` AS GENERATED from string.rs (statement by statement: the
+`checked_sub`, the optional end offset, the two skip/take loops, the `num == 0`
+early return, `chain`, `&s[start_idx..end_idx]` with its panic explicit) equals
+the model `linesSlice` for every string and all 64-bit `i`, `j`. -/
+theorem gen_lines_slice_is_model (dbg : Bool) (s : Str) (i j : USz) :
+    Gen.C17Views.StringLines_slice dbg s i j =
+      (linesSlice s.chars i.toNat j.toNat).map' (Option.map Str.mk) :=
+  StringsGen.gen_lines_slice_is_model dbg s i j
+
+example :
+    Gen.C17Views.StringLines_slice false ⟨['a', '\n', 'b', '\n']⟩ ⟨BitVec.ofNat 64 1⟩ ⟨BitVec.ofNat 64 2⟩
+      = .ok (some ⟨['b', '\n']⟩) ∧
+    (linesSlice ['a', '\n', 'b', '\n'] 1 2).map' (Option.map Str.mk) = .ok (some ⟨['b', '\n']⟩) := by
+  decide
+
+/-! ## The script-visible view built-ins, end to end
+
+`bind_*` are GENERATED from the closures basic.rs registers (`idx.try_into().ok()?`
+on the `u64` arguments, then the string.rs method); composed with the generated
+string.rs bodies they are the whole Rust side of `s.chars().slice(i, j)` etc. -/
+
+/-- `String.chars().get/slice`, `String.bytes().get/slice` as registered: for every
+string and ALL `u64` arguments the generated closure ∘ body returns the documented
+value (characters counted for `chars`, byte offsets with `None` off a code-point
+boundary for `bytes`, `None` out of range / reversed), and never panics. -/
+theorem view_builtins_spec (dbg : Bool) (s : Str) (i j : U64) :
+    Gen.C17Views.bind_StringChars_get dbg s i = .ok (specCharsGet s.chars i.toNat) ∧
+    Gen.C17Views.bind_StringChars_slice dbg s i j =
+      .ok ((specCharsSlice s.chars i.toNat j.toNat).map Str.mk) ∧
+    Gen.C17Views.bind_StringBytes_get dbg s i = .ok (specBytesGet s.chars i.toNat) ∧
+    Gen.C17Views.bind_StringBytes_slice dbg s i j =
+      .ok ((specBytesSlice s.chars i.toNat j.toNat).map Str.mk) :=
+  ⟨StringsGen.gen_builtin_chars_get dbg s i, StringsGen.gen_builtin_chars_slice dbg s i j,
+   StringsGen.gen_builtin_bytes_get dbg s i, StringsGen.gen_builtin_bytes_slice dbg s i j⟩
+
+example :
+    Gen.C17Views.bind_StringChars_slice false ⟨['h', 'é', 'l']⟩ ⟨BitVec.ofNat 64 1⟩ ⟨BitVec.ofNat 64 3⟩
+      = .ok (some ⟨['é', 'l']⟩) ∧
+    Gen.C17Views.bind_StringBytes_get false ⟨['h', 'é', 'l']⟩ ⟨BitVec.ofNat 64 (2 ^ 64 - 1)⟩ = .ok none := by
+  decide
+
+/-- `String.lines().get/slice` as registered equal the models the line theorems
+(and the refutations: open findings) are stated over, for ALL `u64` arguments. -/
+theorem lines_builtins_are_model (dbg : Bool) (s : Str) (i j : U64) :
+    Gen.C17Views.bind_StringLines_get dbg s i = .ok (linesGet s.chars i.toNat) ∧
+    Gen.C17Views.bind_StringLines_slice dbg s i j =
+      (linesSlice s.chars i.toNat j.toNat).map' (Option.map Str.mk) :=
+  ⟨StringsGen.gen_builtin_lines_get dbg s i, StringsGen.gen_builtin_lines_slice dbg s i j⟩
+
+example : Gen.C17Views.bind_StringLines_slice false ⟨['a', '\n', 'b', '\n']⟩ ⟨BitVec.ofNat 64 1⟩ ⟨BitVec.ofNat 64 2⟩
+    = .ok (some ⟨['b', '\n']⟩) := by decide
 
 /-! ## `StringChars` -/
 
@@ -145,6 +307,32 @@ theorem lines_slice_spec_off_edge (s : List Char) (i j : Nat) (h : ¬ LinesSlice
 
 example : ¬ LinesSliceEdge ['a', '\n', 'b'] 0 2 ∧
     linesSlice ['a', '\n', 'b'] 0 2 = .ok (some ['a', '\n', 'b']) := by decide
+
+/-- The same over the definition GENERATED from string.rs: off the two corner
+cases the real `StringLines::slice` body never panics and returns the
+concatenation of the raw lines `i..j`.
+
+FULL statement (false on this tree, refuted by `gen_lines_slice_refuted`):
+  `∀ s i j, StringLines_slice dbg s i j = .ok ((specLinesSlice s.chars i.toNat j.toNat).map Str.mk)`. -/
+theorem gen_lines_slice_spec_off_edge (dbg : Bool) (s : Str) (i j : USz)
+    (h : ¬ LinesSliceEdge s.chars i.toNat j.toNat) :
+    Gen.C17Views.StringLines_slice dbg s i j =
+      .ok ((specLinesSlice s.chars i.toNat j.toNat).map Str.mk) := by
+  rw [gen_lines_slice_is_model, lines_slice_spec_off_edge _ _ _ h]; rfl
+
+example : ¬ LinesSliceEdge ['a', '\n', 'b'] 0 2 ∧
+    Gen.C17Views.StringLines_slice false ⟨['a', '\n', 'b']⟩ ⟨BitVec.ofNat 64 0⟩ ⟨BitVec.ofNat 64 2⟩
+      = .ok (some ⟨['a', '\n', 'b']⟩) := by decide
+
+/-- the refutations hold for the generated body itself: `"".lines().slice(0, 1)`
+is `Some("")` although the empty string has no line, and
+`"a\nb".lines().slice(2, 2)` is `None`. -/
+theorem gen_lines_slice_refuted :
+    ¬ (∀ (s : Str) (i j : USz), Gen.C17Views.StringLines_slice false s i j =
+        .ok ((specLinesSlice s.chars i.toNat j.toNat).map Str.mk)) ∧
+    Gen.C17Views.StringLines_slice false ⟨['a', '\n', 'b']⟩ ⟨BitVec.ofNat 64 2⟩ ⟨BitVec.ofNat 64 2⟩
+      = .ok none := by
+  refine ⟨fun h => absurd (h ⟨[]⟩ ⟨BitVec.ofNat 64 0⟩ ⟨BitVec.ofNat 64 1⟩) (by decide), by decide⟩
 
 /-- Refutation 1 of the full `lines_slice_spec`: the empty string has 0 lines,
 yet `"".lines().slice(0, 1)` is `Some("")` (string.rs's own unit test pins this). -/
